@@ -110,13 +110,22 @@ func (g *forGen) block(ctrs []string, d int, mult int) (item, bool) {
 	it.Count = g.countExpr(ctrs, max)
 	// worst-case count for the budget: counters are at most 6
 	worst := max
+	if max >= 1 && r.Intn(5) == 0 {
+		// a block that is written out at most once (literal count 1, sometimes 0): its body may carry line labels and, when
+		// every enclosing block is of this kind too, nested blocks may carry block labels
+		worst = 1
+		it.Count = []tok{num(1)}
+		if r.Intn(6) == 0 {
+			it.Count = []tok{num(0)}
+		}
+	}
 	g.total += mult
 	inner := ctrs
 	if it.Ctr != "" {
 		inner = append(append([]string{}, ctrs...), it.Ctr)
 	}
 	// optional line labels (referenced only inside the body)
-	if it.Ctr != "" && d == 1 && r.Intn(3) == 0 { // only top-level blocks: a labelled block inside a loop would define its label several times
+	if it.Ctr != "" && (d == 1 || mult == 1) && r.Intn(3) == 0 { // only blocks whose text is written out at most once: a labelled block inside a loop would define its label several times
 		l := fmt.Sprintf("b%d", g.nlab)
 		g.nlab++
 		it.Labels = []string{l}
@@ -134,7 +143,14 @@ func (g *forGen) block(ctrs []string, d int, mult int) (item, bool) {
 		if len(it.Labels) > 0 && i > 0 {
 			g.labels = append(append([]string{}, g.labels...), it.Labels...)
 		}
-		it.Body = append(it.Body, g.ins(inner))
+		bi := g.ins(inner)
+		if mult*worst == 1 && r.Intn(3) == 0 {
+			// a body that is written out at most once may carry line labels of its own (unreferenced; the renderer gives
+			// one label in four a colon)
+			bi.Labels = []string{fmt.Sprintf("u%d", g.nlab)}
+			g.nlab++
+		}
+		it.Body = append(it.Body, bi)
 		g.labels = saved
 	}
 	return it, true
